@@ -455,6 +455,8 @@ public:
         E = P->getExpr();
       else if (const auto *P = dyn_cast<CXXStdInitializerListExpr>(E))
         E = P->getSubExpr();
+      else if (const auto *P = dyn_cast<CXXRewrittenBinaryOperator>(E))
+        E = P->getSemanticForm();
       else if (const auto *P = dyn_cast<ImplicitCastExpr>(E))
       {
         switch (P->getCastKind())
